@@ -44,6 +44,8 @@ GenOK(o) ==
                       /\ \E i \in DOMAIN e : e[i].verdict = "no" /\ \E r \in Range(e[i].reasons) : ReasonShown(o, e[i], r)
      /\ v = "free" => (Accepted(o) \/ Rejected(o) \/ (Cases[o.ci].fam = "F" /\ ~o.failed))   \* F: exit 0 without injectors is an outcome
      /\ o.wrote => o.built # "fail"
+     \* framing: generated-code marker, the !wireinject build constraint before the package clause, the package's own name
+     /\ o.wrote => o.frame_ok
      \* C07: when the loop counters of the analysis are available (verif hooks), they are linear in the size of the graph
      /\ (o.work_acyclic >= 0 /\ "workbound" \in DOMAIN Cases[o.ci]) =>
            (o.work_acyclic <= Cases[o.ci].workbound /\ o.work_solve <= Cases[o.ci].workbound)
